@@ -8,7 +8,7 @@ The source defines LOG (setter call log) and ORIG (property objects as written
 in the class body).  Output per class: a canonical text, see props/c16.py.
 Object identity is reported as the index of first appearance within the class
 session (all instances are kept alive, so ids are not reused)."""
-import sys, os, types, inspect, dataclasses
+import sys, os, types, inspect, dataclasses, re, collections
 sys.path.insert(0, os.path.dirname(os.path.abspath(__file__)))
 from _util import main
 
@@ -39,6 +39,10 @@ class Session:
         if isinstance(v, int):
             return 'I%d' % v
         if isinstance(v, str):
+            m = re.match(r'ctr(\d+)-(\d+)$', v)
+            if m:       # product of an ever-new-value factory: identity = the value
+                n = self.ids.setdefault(('ctr', v), len(self.ids))
+                return 'Ouser%s#%d' % (m.group(1), n)
             return 'S' + v.encode().hex()
         if isinstance(v, float) and v == 0.0:
             return 'Zfloat'
@@ -48,14 +52,25 @@ class Session:
             return 'Ztuple'
         if isinstance(v, frozenset) and not v:
             return 'Zfrozenset'
-        if isinstance(v, (list, dict, set)):
+        kind = None
+        if isinstance(v, list):
+            kind = 'list' if not v else 'user%s' % (v[0],)
+        elif isinstance(v, dict):
+            kind = 'dict' if not v else 'dictX'
+        elif isinstance(v, set):
+            kind = 'set' if not v else 'setX'
+        elif isinstance(v, collections.deque) and v:
+            kind = 'user%s' % (v[0],)
+        elif type(v).__name__ == 'Axle':
+            kind = 'user%s' % (v.tag,)
+        elif isinstance(v, tuple) and v and isinstance(v[0], list) and v[0]:
+            kind = 'user%s' % (v[0][0],)
+        elif isinstance(v, frozenset) and len(v) == 1:
+            kind = 'user%s' % (next(iter(v)),)
+        elif isinstance(v, bytearray) and v:
+            kind = 'user%s' % (v[0],)
+        if kind is not None:
             self.keep.append(v)
-            if isinstance(v, list):
-                kind = 'list' if not v else 'user%s' % (v[0],)
-            elif isinstance(v, dict):
-                kind = 'dict' if not v else 'dictX'
-            else:
-                kind = 'set' if not v else 'setX'
             n = self.ids.setdefault(id(v), len(self.ids))
             return 'O%s#%d' % (kind, n)
         return 'X' + type(v).__name__
@@ -73,7 +88,7 @@ def run_class(c, idx):
     except BaseException as e:  # class creation failed
         return 'classerr:%s' % type(e).__name__
     ses = Session()
-    LOG, ORIG = mod.LOG, mod.ORIG
+    LOG, ORIG, CALLS = mod.LOG, mod.ORIG, mod.CALLS
     # signature
     sig = []
     for p in list(inspect.signature(cls.__init__).parameters.values())[1:]:
@@ -106,6 +121,7 @@ def run_class(c, idx):
     out.append('props=' + ','.join(st))
     for call in c['calls']:
         del LOG[:]
+        del CALLS[:]
         try:
             args = {k: build_value(v) for k, v in call['args'].items()}
             if call.get('positional'):
@@ -127,7 +143,7 @@ def run_class(c, idx):
                     gs.append('%s=!%s' % (g, type(e).__name__))
             del LOG[:]
             return 'log=[%s] get=[%s]' % (lg, ','.join(gs))
-        line = 'call=ok ' + snap()
+        line = 'call=ok ' + snap() + ' fac=[%s]' % ','.join(str(t) for t in CALLS)
         for n, vj in call.get('assign', []):
             try:
                 setattr(inst, n, build_value(vj))
